@@ -238,7 +238,8 @@ def ishom2(T, check=False):
     """
     return isinstance(T, np.ndarray) and T.shape == (3, 3) \
         and (not check or (base.isR(T[:2, :2])
-                           and np.all(T[2, :] == np.array([0, 0, 1]))))
+                           and np.all(T[2, :] == np.array([0, 0, 1]))
+                           and not (np.iscomplexobj(T) and np.any(T.imag != 0))))
 
 
 def isrot2(R, check=False):
